@@ -162,4 +162,19 @@ var props = []propCfg{
 		LevelNote: "Trusted: go/parser and go/types.ExprString for reading the emitted type; the 40-line reference translator.",
 		DesignRef: "DESIGN.md section 4, C15",
 	},
+	{
+		ID: "C18", Pkg: "props/c18", Needs: []string{"bsm"},
+		Tests: []testCfg{
+			{Name: "TestReadme", Rapid: true, Quick: 3200, Thorough: 80000, ShardsQ: 16, ShardsT: 16},
+		},
+		Rule:      "rapid draws a directory: 0..8 list entries `name[.fo] [title words]` (titles with several and doubled spaces, entries without title, names without .fo, the same file listed twice), empty lines anywhere in the list, final newline present or not, the tool invoked with a relative, absolute or sub-directory list path; file contents are lines chosen to look like README structure (code fences, ### headings, the header line, a 'generated go:' link, CR, tabs, UTF-8) or raw text. One case in six makes a listed file unreadable (missing / a directory) with a sentinel README in place. Oracle: a sequential consumer of README.md in the list's directory (header, then per non-empty list line in order: `### <title>`, opening fence, exactly the file's bytes consumed by length, closing fence, the gen_<base>.go link; only blank lines between elements, nothing after the last); fault cases: non-zero exit and the sentinel README intact. Non-trivial = >= 2 entries with at least one multi-word title and one entry without title; distinct = hash of the case.",
+		Technique: "property-based testing (rapid) of the rebuilt tool against a sequential reference reader of the documented README layout",
+		Assumptions: []string{
+			"blank-line counts between the elements are not part of the property (exact bytes of the shipped README are C04's business)",
+			"list lines are either empty or start with a file name (whitespace-only lines are not generated)",
+		},
+		LevelText: "Generated-input search over list files and sample contents against an explicit validity reader; thousands of directories per run, including contents that imitate the README's own structure and unreadable-file faults. Exploration, not proof.",
+		LevelNote: "Trusted: the sequential reader (consumes file content by its known length, so look-alike content is unambiguous).",
+		DesignRef: "DESIGN.md section 4, C18",
+	},
 }
